@@ -784,4 +784,7 @@ theorem rawTokens_dumps (m : LCqm) (ts : List Tok) (text : String) (h : dumpToks
   rw [z2] at this
   exact this
 
+theorem numOK_of_dyadic (q : Rat) (j : Nat) (hj : j ≤ 60) (h : (q * (2 : Rat) ^ j).den = 1) (hd : isDouble (absQ q) = true) :
+    NumOK q := ⟨dec60_of_dyadic q j hj h, hd⟩
+
 end LpCpp
